@@ -8,8 +8,8 @@ children, kind/content/exec changes, adds, removes) plus unversioned files, in t
          InterTree.get -> InterDirStateTree (compiled dirstate walk)
   rev  - revision tree against revision tree in a 2a repository: InterTree.get -> InterCHKRevisionTree
   git  - git working tree against its basis and git revision trees: InterGitTrees
-and, for every pair, every specific_files filter that is a subset of size <= 2 (quick) / <= 3
-(thorough) of the paths present in either tree + an unversioned + an absent path, None and [],
+and, for every pair, every specific_files filter that is a subset of size <= 2 (revision trees,
+thorough: <= 3) of the paths present in either tree + an unversioned + an absent path, None and [],
 x include_unchanged x want_unversioned.  Oracle (bzr): the optimised iter_changes returns the
 same multiset of change tuples (all fields) or the same exception as the generic
 InterInventoryTree.iter_changes constructed explicitly on the same pair; applying the reported
@@ -31,12 +31,18 @@ from mc.evidence import HarnessError
 from . import _treepairs as tp
 from . import _treestates as ts
 
+def _cpu():
+    import resource
+    return round(sum(resource.getrusage(w).ru_utime + resource.getrusage(w).ru_stime
+                     for w in (resource.RUSAGE_SELF, resource.RUSAGE_CHILDREN)), 1)
+
+
 ID = "C10"
 LEVEL = "exploration"
 TECHNIQUE = "exhaustive enumeration of tree pairs x path filters x flags; differential comparison of optimised and generic iter_changes on real trees, plus delta-application laws"
 
 _CFG = {}
-UNV = (("u", b"u\n"), ("d/u", b"u\n"), ("e/u", b"u\n"))
+UNV = (("u", b"u\n"), ("d/u", b"u\n"), ("e/u", b"u\n"), ("d/s/u", b"u\n"))
 
 
 def filters(paths, maxk):
@@ -295,7 +301,7 @@ def _work_rev(chunk):
                 tgt = repo.revision_tree(b"t%d" % j)
                 with src.lock_read(), tgt.lock_read():
                     check_pair_bzr(acc, "rev", src, tgt, trees[i], trees[j], {"source": i, "target": j},
-                                   _CFG["maxk"], "InterCHKRevisionTree")
+                                   _CFG["maxk_rev"], "InterCHKRevisionTree")
             acc.sample({"setting": "rev", "source": sorted(trees[i]), "targets": len(trees) - 1})
     return acc
 
@@ -465,7 +471,7 @@ def _work_git(chunk):
 
 def run(ctx):
     trees = tp.space(ctx.q(0, 1))
-    _CFG.update(trees=trees, maxk=ctx.q(2, 3), rev_world=None)
+    _CFG.update(trees=trees, maxk=2, maxk_rev=ctx.q(2, 3), rev_world=None)
     ts.warm("bzr")
     ts.warm("git")
     idx = list(range(len(trees)))
@@ -502,10 +508,11 @@ def run(ctx):
                 "(the filtered result is strictly smaller than the full change set)",
         "trees": len(trees),
         "ordered_pairs_per_setting": len(trees) * (len(trees) - 1),
-        "max_filter_size": ctx.q(2, 3),
+        "max_filter_size": {"rev": ctx.q(2, 3), "wt": 2, "git": 2, "wt-reachable": 2},
         "parts": parts,
         "distinct_change_sets": len(acc.outcomes),
         "samples": acc.samples[:3] or [{"trees": len(trees)}],
+        "cpu_s": _cpu(),
         "exhaustive": True,
     }
 
